@@ -99,6 +99,30 @@ pub fn model_run(case: &RCase, log: &RunLog) -> Modelled {
             violations.push(Violation::new("C02/unknown-scenario", format!("events for a scenario that was never supplied: {}", a.scenario)));
             continue;
         };
+        // "... then Finished, with no event of that attempt after it" - `Log` events included (they
+        // are otherwise transparent to the automaton).
+        if let Some(p) = a.ev.iter().position(|i| matches!(log.events[*i].sc(), Some((_, _, ScEv::Finished)))) {
+            if let Some(&late) = a.ev.get(p + 1) {
+                // One case is a recorded finding (D11) rather than a new violation: a log from
+                // outside every scenario's context is handed to every scenario the collector still
+                // knows, and an attempt that has just emitted its Finished stays known until the main
+                // loop reads its completion. It is *that* window only if the late event is such a log
+                // and nothing shows that the completion had been read before: no attempt dispatched
+                // after the main loop observed it (H2 batch >= H3 next_batch) has started earlier.
+                let unattributed = matches!(log.events[late].sc(), Some((_, _, ScEv::Log(m))) if m.contains("UNATTR|"));
+                let disp = |s: &str, r: Option<(usize, usize)>| log.dispatched.iter().find(|d| d.scenario == s && d.retries.map(|x| (x.current, x.left)) == r);
+                let observed = disp(&a.scenario, a.retries).and_then(|d| log.observed.iter().find(|o| o.id == d.id));
+                let read_before = observed.is_none_or(|o| {
+                    log.events[..late].iter().any(|e| matches!(e.sc(), Some((s, r, ScEv::Started)) if disp(s, r).is_some_and(|d| d.batch >= o.next_batch)))
+                });
+                let clause = if unattributed && !read_before { "event-after-finished/unattributed-log-in-completion-window" } else { "event-after-finished" };
+                violations.push(Violation::new(
+                    format!("C02/{clause}"),
+                    format!("attempt {} retries={:?}: event #{late} `{}` of the attempt follows its Finished (#{})", a.scenario, a.retries, short(&log.events[late]), a.ev[p]),
+                ));
+                continue;
+            }
+        }
         match walk(case, sc, a, &log.events, &mut sim_inv, &wn_hook, &wn_step) {
             Ok(()) => a.conforms = true,
             Err((clause, msg)) => {
@@ -195,13 +219,6 @@ fn walk(
         let e = &events[*i];
         if e.f != sc.feature || e.r != sc.rule {
             return Err(("wrong-path", format!("event reported under feature `{}` rule {:?}, expected `{}` {:?}", e.f, e.r, sc.feature, sc.rule)));
-        }
-    }
-    // "... then Finished, with no event of that attempt after it" - `Log` events included (they are
-    // otherwise transparent to the automaton)
-    if let Some(p) = a.ev.iter().position(|i| matches!(events[*i].sc(), Some((_, _, ScEv::Finished)))) {
-        if let Some(late) = a.ev.get(p + 1) {
-            return Err(("event-after-finished", format!("event #{late} `{}` of the attempt follows its Finished (#{})", short(&events[*late]), a.ev[p])));
         }
     }
     let seq: Vec<&ScEv> = a.ev.iter().filter_map(|i| events[*i].sc().map(|x| x.2)).filter(|e| !matches!(e, ScEv::Log(_))).collect();
